@@ -1,7 +1,7 @@
 //@ inject crate=core src=quic/s2n-quic-core/src/buffer/reassembler.rs
 // Contract harnesses for the Reassembler (properties C16 / C01).
 //   part 1: pure helpers `allocation_size`, `align_offset` (level=full)
-//   part 2: modular Reassembler harnesses (see the header of that part)
+//   part 2: `allocate_slot` against its contract (the modular harnesses in c01_reassembler_modular.rs assume it)
 // Predicates: contracts/spec/reassembly.rs.
 use super::*;
 #[allow(dead_code, unused_variables)]
@@ -76,18 +76,91 @@ fn vq_c16_reassembler_align_offset_blocks() {
 //@ harness props=C16 tier=quick level=full timeout=300
 //@ fn Reassembler::align_offset
 #[kani::proof]
-#[kani::unwind(2)]
-fn vq_c16_reassembler_align_offset_any_alignment() {
-    // requires: alignment > 0 (the function's own assume!)
+#[kani::unwind(19)]
+fn vq_c16_reassembler_align_offset_pow2_alignment() {
+    // requires: alignment > 0 (the function's own assume!).  Every power of two up to the slot capacity limit 2^16
+    // (a fully symbolic 64-bit alignment makes the 64-bit divider SAT-hard: no result in 8 min)
     let o: u64 = kani::any();
-    let a: usize = kani::any();
-    kani::assume(a > 0);
-    let r = Reassembler::align_offset(o, a);
-    let (oi, ai, ri) = (o as i128, a as i128, r as i128);
-    assert!(ra_align_le_offset(oi, ai, ri), "C16/reassembler.align_offset_any/le_offset");
-    assert!(ra_align_offset_in_block(oi, ai, ri), "C16/reassembler.align_offset_any/offset_lt_block_end");
-    assert!(r % (a as u64) == 0, "C16/reassembler.align_offset_any/multiple_of_alignment");
-    kani::cover!(a == 1 && r == o, "reach:alignment_1");
-    kani::cover!(a as u64 > o && r == 0, "reach:alignment_above_offset");
+    let mut k = 0;
+    while k <= 16 {
+        let a: usize = 1 << k;
+        let r = Reassembler::align_offset(o, a);
+        let (oi, ai, ri) = (o as i128, a as i128, r as i128);
+        assert!(ra_align_le_offset(oi, ai, ri), "C16/reassembler.align_offset_pow2/le_offset");
+        assert!(ra_align_offset_in_block(oi, ai, ri), "C16/reassembler.align_offset_pow2/offset_lt_block_end");
+        assert!(r & (a as u64 - 1) == 0, "C16/reassembler.align_offset_pow2/multiple_of_alignment");
+        k += 1;
+    }
     kani::cover!(o == u64::MAX, "reach:max_offset");
+    kani::cover!(o == 0, "reach:offset_0");
+}
+
+// ==== part 2: allocate_slot ===========================================================================================
+use crate::buffer::{reader, writer};
+
+/// symbolic Reader: only the observations allocate_slot makes (current offset, buffered length)
+struct SymReader {
+    off: u64,
+    len: usize,
+}
+impl reader::Storage for SymReader {
+    type Error = core::convert::Infallible;
+    fn buffered_len(&self) -> usize {
+        self.len
+    }
+    fn read_chunk(&mut self, _w: usize) -> Result<reader::storage::Chunk<'_>, Self::Error> {
+        Ok(Default::default())
+    }
+    fn partial_copy_into<D: writer::Storage + ?Sized>(&mut self, _d: &mut D) -> Result<reader::storage::Chunk<'_>, Self::Error> {
+        Ok(Default::default())
+    }
+}
+impl Reader for SymReader {
+    fn current_offset(&self) -> VarInt {
+        VarInt::new(self.off).unwrap()
+    }
+    fn final_offset(&self) -> Option<VarInt> {
+        None
+    }
+}
+
+//@ harness props=C16,C01 tier=quick level=full timeout=600 mem=12
+//@ fn Reassembler::allocate_slot
+#[kani::proof]
+#[kani::unwind(5)]
+fn vq_c16_reassembler_allocate_slot() {
+    // arbitrary cursors satisfying cur_inv; allocate_slot does not look at the stored slots
+    let start: u64 = kani::any();
+    let max_recv: u64 = kani::any();
+    let fin: u64 = kani::any();
+    let fin_known: bool = kani::any();
+    let mut r = Reassembler::new();
+    r.cursors = Cursors { start_offset: start, max_recv_offset: max_recv, final_offset: if fin_known { fin } else { UNKNOWN_FINAL_SIZE } };
+    let c = CurV { start: start as i128, max_recv: max_recv as i128, fin: if fin_known { fin as i128 } else { -1 } };
+    kani::assume(cur_inv(c));
+    let off: u64 = kani::any();
+    let len: usize = kani::any();
+    kani::assume(off <= MAXV);
+    let (oi, li) = (off as i128, len as i128);
+    // requires (call sites: write_reader_impl, write_reader_with_alloc; both after skip_until(start) and handle_reader_fin)
+    kani::assume(alloc_slot_pre(c, oi, li));
+    let reader = SymReader { off, len };
+
+    let slot = r.allocate_slot(&reader);
+
+    let v = SlotV { start: slot.start() as i128, len: slot.end() as i128 - slot.start() as i128, end_alloc: slot.end_allocated() as i128 };
+    let (b, a) = (ra_block_start(oi), ra_alloc_size(oi));
+    assert!(alloc_slot_post(c, oi, li, b, a, v), "C16/reassembler.allocate_slot/view_is_rest_of_block_from_read_cursor");
+    // consequences the caller relies on
+    assert!(v.start <= oi && oi < v.end_alloc, "C16/reassembler.allocate_slot/covers_reader_offset");
+    assert!(b <= v.start && v.end_alloc <= b + a && v.start >= c.start, "C16/reassembler.allocate_slot/within_block_above_read_cursor");
+    assert!(slot_inv(v) && !slot_should_drop(v), "C16/reassembler.allocate_slot/slot_well_formed");
+    let c2 = r.cursors;
+    assert!(c2.start_offset == start && c2.max_recv_offset == max_recv && r.slots.is_empty(), "C16/reassembler.allocate_slot/frame");
+    kani::cover!(v.start == c.start && b < c.start, "reach:clipped_at_read_cursor");
+    kani::cover!(fin_known && v.end_alloc == c.fin && c.fin < b + a, "reach:cut_at_final_size");
+    kani::cover!(v.end_alloc - v.start == 65536, "reach:full_64k_block");
+    kani::cover!(v.end_alloc - v.start == 1, "reach:one_byte_slot");
+    kani::cover!(oi + li > b + a, "reach:reader_extends_beyond_block");
+    kani::cover!(v.end_alloc > MAXV as i128, "reach:allocation_reaches_beyond_max_offset");
 }
